@@ -16,6 +16,7 @@ import (
 	"strings"
 	"sync"
 	"sync/atomic"
+	"syscall"
 	"testing"
 	"time"
 
@@ -56,6 +57,10 @@ type Case struct {
 	// BusyPOP3: with Busy and both sessions open, the SMTP session quits right after shutdown was
 	// requested so that the sequence reaches the POP3 drain while the POP3 session is still active.
 	BusyPOP3 bool `json:"busy_pop3,omitempty"`
+	// AcceptDies: after a healthy start the SMTP accept loop meets a permanent error ("too many
+	// open files": the process's descriptor table is filled for a moment) and reports it through
+	// Notify; the shutdown that follows must still complete.
+	AcceptDies bool `json:"accept_dies,omitempty"`
 }
 
 var prop = hx.Prop[Case]{
@@ -78,7 +83,8 @@ var prop = hx.Prop[Case]{
 		if c.Fail == "" && !c.Early {
 			c.SMTP = rapid.SampledFrom([]string{"", "greeted", "data", "data"}).Draw(t, "smtp")
 			c.POP3 = rapid.SampledFrom([]string{"", "auth"}).Draw(t, "pop3")
-			c.Busy = (c.SMTP != "" || c.POP3 != "") && rapid.IntRange(0, 2).Draw(t, "busy") == 0
+			c.AcceptDies = rapid.IntRange(0, 7).Draw(t, "acceptdies") == 0
+			c.Busy = !c.AcceptDies && (c.SMTP != "" || c.POP3 != "") && rapid.IntRange(0, 2).Draw(t, "busy") == 0
 			c.BusyPOP3 = c.Busy && c.POP3 != "" && rapid.IntRange(0, 3).Draw(t, "busypop3") > 0
 			if c.Busy && c.SMTP == "data" {
 				// the DATA phase has one deadline for the whole block (it is not re-armed per
@@ -329,6 +335,32 @@ func run(c Case) *hx.Outcome {
 		return o
 	}
 
+	if c.AcceptDies && isReady {
+		restore, err := starveAccept(smtpAddr)
+		if err != nil {
+			restore()
+			o.Class("abandoned: could not fill the descriptor table")
+			cancel()
+			if sc != nil {
+				_ = sc.c.Close()
+			}
+			if pc != nil {
+				_ = pc.c.Close()
+			}
+			waitWebDown()
+			return o
+		}
+		select {
+		case <-svc.Notify():
+			restore()
+			o.Class("SMTP accept loop ended by a permanent error before shutdown")
+		case <-time.After(3 * time.Second):
+			// the accept did not fail (the kernel had the connection accepted before the table was full)
+			restore()
+			o.Class("abandoned: the accept loop survived")
+		}
+	}
+
 	// ---- shutdown, as main.go does it ----
 	cancel()
 	var step atomic.Int32 // 1 = smtp drained, 2 = pop3 drained, 3 = retention joined
@@ -493,6 +525,55 @@ func run(c Case) *hx.Outcome {
 	}
 	o.NonTrivial = c.Fail != "" || sc != nil || pc != nil
 	return o
+}
+
+// starveAccept makes the next accept on addr fail with EMFILE: the soft descriptor limit is
+// lowered to just above what the process uses, the table is filled, one slot is freed for a
+// client socket and that client connects. restore undoes all of it.
+func starveAccept(addr string) (restore func(), err error) {
+	var old syscall.Rlimit
+	var fill []*os.File
+	var conn net.Conn
+	restore = func() {
+		if conn != nil {
+			_ = conn.Close()
+		}
+		for _, f := range fill {
+			_ = f.Close()
+		}
+		if old.Cur != 0 {
+			_ = syscall.Setrlimit(syscall.RLIMIT_NOFILE, &old)
+		}
+	}
+	if err = syscall.Getrlimit(syscall.RLIMIT_NOFILE, &old); err != nil {
+		return restore, err
+	}
+	ents, err := os.ReadDir("/proc/self/fd")
+	if err != nil {
+		return restore, err
+	}
+	lim := old
+	lim.Cur = uint64(len(ents) + 64)
+	if lim.Cur > old.Cur {
+		return restore, fmt.Errorf("limit already low")
+	}
+	if err = syscall.Setrlimit(syscall.RLIMIT_NOFILE, &lim); err != nil {
+		return restore, err
+	}
+	for i := 0; i < 4096; i++ {
+		f, oerr := os.Open("/dev/null")
+		if oerr != nil {
+			break
+		}
+		fill = append(fill, f)
+	}
+	if len(fill) == 0 {
+		return restore, fmt.Errorf("nothing could be opened")
+	}
+	_ = fill[len(fill)-1].Close()
+	fill = fill[:len(fill)-1]
+	conn, err = net.DialTimeout("tcp", addr, 2*time.Second)
+	return restore, err
 }
 
 // freePort returns a loopback address that was free a moment ago.
